@@ -29,6 +29,11 @@ func ValidateLiteralValue(node schema.Node, jsonValue bytes.Bytes) {
 		isNullable = c.(constraint.BoolKeeper).Bool()
 	}
 
+	if isNullable && jsonValue.String() == "null" {
+		// A null admitted by `nullable: true` is valid whatever the other rules say.
+		return
+	}
+
 	for _, k := range keys {
 		t := constraint.Type(k)
 		c := m.GetValue(t)
